@@ -145,6 +145,7 @@ void tag_verify(const BlockInfo& b, const char* when) {
 }
 
 void backend_release(BlockInfo& b) {
+  if (b.arena == SA_ARENA_HUGE) { munmap(b.user, b.size); return; }     // a lazily committed mapping handed in by the client: never touched, simply unmapped
   switch (S.knobs.backend) {
     case BE_ARENA:
       if (!S.arena[b.arena].ro) memset(b.user, 0xDD, b.size);
@@ -192,7 +193,8 @@ void sa_install() {
 void sa_reset(const SaKnobs& k) {
   // release whatever the previous run left (a failed run may leave blocks)
   for (auto& b : S.blocks) if (b.live) {
-    if (S.knobs.backend == BE_TAG) free(b.user - TAG_HDR);
+    if (b.arena == SA_ARENA_HUGE) munmap(b.user, b.size);
+    else if (S.knobs.backend == BE_TAG) free(b.user - TAG_HDR);
     else if (S.knobs.backend == BE_DIRECT) free(b.user);
     b.live = false;
   }
@@ -250,6 +252,15 @@ void* sa_client_malloc(size_t n) {
   g_log.ev("client-alloc", S.blocks[id].local, n);
   return p;
 }
+void* sa_client_map_huge(size_t n) {
+  // address space without memory: what a client gets from mmap() for a sparse file or a lazily committed region. Registered as a live
+  // client block so that the library may take ownership of it (cbor_bytestring_set_handle) and release it through the installed free.
+  void* p = mmap(nullptr, n, PROT_READ | PROT_WRITE, MAP_PRIVATE | MAP_ANONYMOUS | MAP_NORESERVE, -1, 0);
+  if (p == MAP_FAILED) return nullptr;
+  uint64_t id = new_block((unsigned char*)p, n, 2, SA_ARENA_HUGE);
+  g_log.ev("client-map", S.blocks[id].local, n);
+  return p;
+}
 void sa_client_free(void* p) {
   auto it = S.live.find(p);
   if (it == S.live.end()) { fprintf(stderr, "HARNESS: client free of unknown pointer\n"); _exit(2); }
@@ -269,14 +280,14 @@ void sa_check_integrity() {
   if (S.knobs.backend == BE_ARENA) {
     for (uint64_t id : S.arena_freed) {
       const BlockInfo& b = S.blocks[id];
-      if (S.arena[b.arena].ro) continue;
+      if (b.arena < 0 || S.arena[b.arena].ro) continue;
       for (size_t i = 0; i < b.size; i++) if (b.user[i] != 0xDD) {
         fail("C04,C13", "alloc:write-after-release", fmt("released block #%llu (size %zu) modified at offset %zu after release", (unsigned long long)id, b.size, i));
         return;
       }
     }
     for (auto& b : S.blocks) {   // gaps between blocks must still hold 0xEE
-      if (S.arena[b.arena].ro) continue;
+      if (b.arena < 0 || S.arena[b.arena].ro) continue;     // not an arena block (a client mapping)
       size_t rounded = ((b.size + 15) & ~(size_t)15); if (!rounded) rounded = 16;
       for (size_t i = b.size; i < rounded + (S.knobs.pack ? 0 : 16); i++) if (b.user[i] != 0xEE) {
         fail("C13,C04,C07", "alloc:write-past-block", fmt("byte %zu past the end of block #%llu (size %zu) was modified", i - b.size, (unsigned long long)b.id, b.size));
